@@ -290,6 +290,9 @@ func Replacements() []any {
 		M{kv("foo", "* * * * *")}, []any{[]any{"nested"}}, M{yaml.MapItem{Key: 1, Value: "intkey"}}, M{kv("type", 5)}, M{kv("type", "command"), kv("config", []any{1})},
 		"* * * *", "61 * * * *", "@every 1s", "TZ=UTC * * * * *", "TZ=UTC", "CRON_TZ=", "TZ=Nowhere/X 1 1 1 1 1", "SIGNOPE", []any{""}, "0x10", "~", "1e999", M{kv("start", 5)}, M{kv("start", []any{1})},
 		M{kv("function", "nope"), kv("args", M{})}, M{kv("function", "fn1"), kv("args", M{kv("a", []any{1}), kv("b", 2)})},
+		// (appended later; indices above are referenced by saved replays)
+		[]any{[]any{M{kv("url", "x")}}}, []any{1, math.NaN()}, M{kv("w", []any{1.5, math.Inf(-1)})}, []any{[]any{[]any{M{kv("deep", M{kv("er", []any{M{kv("x", 1)}})})}}}},
+		M{kv("batches", []any{[]any{M{kv("url", "x")}}}), kv("weights", []any{1, math.NaN()})},
 	}
 }
 
